@@ -102,7 +102,7 @@ func c19(tier string) []*explore.Scenario {
 	for _, cp := range []int{0, 1, 2} {
 		out = append(out, c19Channel(cp, bound))
 	}
-	out = append(out, c19ChannelCtx(), c19HTTPShapes(), c19HTTPDuplex(), c19HTTPCtx())
+	out = append(out, c19ChannelCtx(), c19HTTPShapes(), c19HTTPDuplex(), c19HTTPCtx(), c19HTTPWriteCtx())
 	for _, pending := range []string{"sender", "reader", "both", "none"} {
 		out = append(out, c19HTTPIdle(pending, bound))
 	}
@@ -372,6 +372,73 @@ func c19HTTPCtx() *explore.Scenario {
 			vsched.Quiesce()
 			if !done || err == nil {
 				vsched.Fail(fam+"|read-ignores-ctx", "a Read blocked on the HTTP transport did not return after its context was cancelled (server Stop and caller cancellation depend on it); threads: %s", threadList())
+			}
+			goh.Cancel()
+			vsched.Quiesce()
+		},
+	}
+}
+
+// c19BlockingRT: the peer's HTTP endpoint accepts the request and does not
+// answer until released (a stalled peer); like net/http's transport it gives
+// up when the request's context ends.
+type c19BlockingRT struct{ release chan struct{} }
+
+func (rt *c19BlockingRT) RoundTrip(req *http.Request) (*http.Response, error) {
+	select {
+	case <-req.Context().Done():
+		return nil, req.Context().Err()
+	case <-rt.release:
+		return httptest.NewRecorder().Result(), nil
+	}
+}
+
+// c19HTTPWriteCtx: a Write blocked on a stalled peer returns once its context is done.
+func c19HTTPWriteCtx() *explore.Scenario {
+	fam := "C19/http"
+	return &explore.Scenario{
+		Name: "C19/http/ctx-unblocks-write", Family: fam, Prop: "C19", Bound: 1,
+		Run: func() {
+			old := http.DefaultTransport
+			rt := &c19BlockingRT{release: make(chan struct{})}
+			http.DefaultTransport = rt
+			defer func() { http.DefaultTransport = old }()
+			goh := goat.NewGoatOverHttp(func(id string, rw goat.RpcReadWriter) {}, func(s string) (string, error) { return s, nil }, goat.WithClock(env.NewClock()))
+			conn := goh.NewConnection("peer")
+			vsched.Settle()
+			vsched.Explore(true)
+			ctx, cancel := context.WithCancel(context.Background())
+			done := false
+			var err error
+			vsched.GoNamed("writer", func() {
+				err = conn.Write(ctx, &env.Rpc{Id: 1, Header: &goatorepo.RequestHeader{Method: "/a/B", Source: "me", Destination: "peer"}})
+				done = true
+			})
+			vsched.Quiesce()
+			if done {
+				vsched.Fail(fam+"|harness", "the write was supposed to block on the stalled peer (err=%v)", err)
+			}
+			cancel()
+			vsched.Quiesce()
+			if !done || err == nil {
+				vsched.Fail(fam+"|write-ignores-ctx", "a Write blocked on the HTTP transport (the peer accepted the request and does not answer) did not return after its context was cancelled (done=%v err=%v); threads: %s", done, err, threadList())
+			}
+			close(rt.release)
+			vsched.Quiesce()
+			// the caller gave up; the logical connection (shared by every call to that peer) still works both ways
+			if err := conn.Write(context.Background(), &env.Rpc{Id: 2, Header: &goatorepo.RequestHeader{Method: "/a/B", Source: "me", Destination: "peer"}}); err != nil {
+				vsched.Fail(fam+"|connection-lost-by-cancelled-write", "after one Write was abandoned by its caller, the next Write on the connection failed: %v", err)
+			}
+			var got *env.Rpc
+			var rerr error
+			rdone := false
+			vsched.GoNamed("reader", func() { got, rerr = conn.Read(context.Background()); rdone = true })
+			b, _ := proto.Marshal(&env.Rpc{Id: 3, Header: &goatorepo.RequestHeader{Method: "/a/B", Source: "peer", Destination: "me"}})
+			code := 0
+			vsched.GoNamed("poster", func() { code = post(goh, bytes.NewReader(b)) })
+			vsched.Quiesce()
+			if code != http.StatusOK || !rdone || rerr != nil || got.GetId() != 3 {
+				vsched.Fail(fam+"|connection-lost-by-cancelled-write", "after one Write was abandoned by its caller, an envelope posted by the peer was answered %d and read as done=%v err=%v id=%d: the logical connection did not survive", code, rdone, rerr, got.GetId())
 			}
 			goh.Cancel()
 			vsched.Quiesce()
